@@ -67,7 +67,7 @@ class C03(Property):
             res.append(("random", "N %s %s | %s" % ("pr"[i % 2], " ".join(ev), " ".join(prog))))
         return res
 
-    OPS = set(GN.NODE_OPS + GN.TOKEN_OPS + ["ch", "cht", "nca", "ncta", "pcb", "pctb"])
+    OPS = set(GN.NODE_OPS + GN.TOKEN_OPS + ["ch", "cht", "nca", "ncta", "pcb", "pctb", "itn", "its"])
 
     def project(self, line):
         # C03 is about WHICH elements navigation returns; the ranges they report are C02's business,
